@@ -176,9 +176,26 @@ func (kc *Cache[V]) ForEach(k []byte, fn func(e Entry[V]) bool) {
 	defer kc.mu.RUnlock()
 	d := Distance(kc.locus, k)
 	lz := LeadingZeros(d)
-	// everything in these buckets will have lz bits matching k.
-	for i := lz; i < len(kc.buckets); i++ {
-		if !kc.buckets[i].forEach(k, fn) {
+	// the bucket at lz shares more than lz bits with k: it is the closest.
+	if lz < len(kc.buckets) {
+		if !kc.buckets[lz].forEach(k, fn) {
+			return
+		}
+	}
+	// deeper buckets all differ from k first at bit lz; below that, bucket i
+	// differs from k at bit i exactly when k agrees with the locus there.
+	var later []int
+	for i := lz + 1; i < len(kc.buckets); i++ {
+		if i/8 < len(d) && d[i/8]&(0x80>>(i%8)) != 0 {
+			if !kc.buckets[i].forEach(k, fn) {
+				return
+			}
+		} else {
+			later = append(later, i)
+		}
+	}
+	for j := len(later) - 1; j >= 0; j-- {
+		if !kc.buckets[later[j]].forEach(k, fn) {
 			return
 		}
 	}
